@@ -1,6 +1,13 @@
 // vmock.cpp — see vmock.hpp
 #include "vmock.hpp"
 
+extern "C"
+{
+    // the shipped simulated cameras (acquire-driver-common/src/simcams/simulated.camera.c, compiled into this harness)
+    struct Camera* simcam_make_camera(int kind);
+    enum DeviceStatusCode simcam_close_camera(struct Camera* camera);
+}
+
 #include <cstring>
 
 namespace vmock {
@@ -14,9 +21,10 @@ Hub::reset()
     for (Instance* i : instances)
         delete i;
     instances.clear();
-    cam_script[0] = cam_script[1] = CamScript();
+    for (CamScript& c : cam_script)
+        c = CamScript();
     store_script[0] = store_script[1] = StoreScript();
-    cam_runs[0] = cam_runs[1] = store_runs[0] = store_runs[1] = 0;
+    cam_runs[0] = cam_runs[1] = cam_runs[2] = cam_runs[3] = store_runs[0] = store_runs[1] = 0;
     shutdown_seen = false;
     inits = 0;
     for (bool& b : refuse_open)
@@ -38,7 +46,7 @@ ev(Instance* i, const char* what)
 {
     i->events.push_back(Event{ what, vsim::now_ns() });
     if (hub.c)
-        hub.c->trace("        [%s%d#%d] %s", i->is_cam ? "vcam" : "vstore", i->idx, i->serial, what);
+        hub.c->trace("        [%s%d#%d] %s", i->is_cam ? (i->real ? "vreal" : "vcam") : "vstore", i->real ? i->idx - 2 : i->idx, i->serial, what);
 }
 
 static bool
@@ -108,6 +116,13 @@ cam_set(Camera* c, CameraProperties* s)
     Instance* i = enter(c, "camera.set");
     if (!i)
         return Device_Err;
+    if (i->real) {
+        DeviceStatusCode r = i->real->set(i->real, s);
+        i->props = *s;
+        i->real->get_shape(i->real, &i->shape);
+        ev(i, r == Device_Ok ? "set" : "set -> Err");
+        return r;
+    }
     i->props = *s;
     i->base_w = s->shape.x ? s->shape.x : 1;
     i->base_h = s->shape.y ? s->shape.y : 1;
@@ -123,14 +138,19 @@ cam_get(const Camera* c, CameraProperties* s)
     Instance* i = enter(c, "camera.get");
     if (!i)
         return Device_Err;
+    if (i->real)
+        return i->real->get(i->real, s);
     *s = i->props;
     return Device_Ok;
 }
 static DeviceStatusCode
 cam_get_meta(const Camera* c, CameraPropertyMetadata* m)
 {
-    if (!enter(c, "camera.get_meta"))
+    Instance* ii = enter(c, "camera.get_meta");
+    if (!ii)
         return Device_Err;
+    if (ii->real)
+        return ii->real->get_meta(ii->real, m);
     memset(m, 0, sizeof *m);
     m->supported_pixel_types = 0xff;
     return Device_Ok;
@@ -141,6 +161,8 @@ cam_get_shape(const Camera* c, ImageShape* s)
     Instance* i = enter(c, "camera.get_shape");
     if (!i)
         return Device_Err;
+    if (i->real)
+        return i->real->get_shape(i->real, s);
     *s = i->shape;
     return Device_Ok;
 }
@@ -158,11 +180,16 @@ cam_start(Camera* c)
         ev(i, "start -> Err (scripted)");
         return Device_Err;
     }
+    if (i->real && i->real->start(i->real) != Device_Ok) {
+        ev(i, "start -> Err (simulated camera)");
+        return Device_Err;
+    }
     i->started = true;
     i->starts++;
     i->run = hub.cam_runs[i->idx]++;
     i->k = i->calls = i->hw = 0;
-    shape_for_frame(i, 0);
+    if (!i->real)
+        shape_for_frame(i, 0);
     i->stop_requested = false;
     i->triggers = 0;
     clock_init(&i->pace);
@@ -180,6 +207,19 @@ cam_stop(Camera* c)
     if (i->stopping)
         lc_fail(i, "stop-reentered", "a second stop reached the camera while its first stop was still in progress");
     ev(i, "stop");
+    if (i->real) {
+        // the shipped camera's own stop (joins its streamer thread: takes as long as it takes)
+        i->stopping = true;
+        i->real->stop(i->real);
+        i->stopping = false;
+        i = enter(c, "camera.stop (while it was stopping)");
+        if (!i)
+            return Device_Err;
+        i->started = false;
+        i->stops++;
+        i->stop_requested = true;
+        return Device_Ok;
+    }
     if (hub.cam_script[i->idx].stop_yields) {
         i->stopping = true;
         clock_sleep_ms(nullptr, hub.cam_script[i->idx].stop_ms); // a real stop takes time: other threads run while the camera stops
@@ -203,6 +243,10 @@ cam_trigger(Camera* c)
     Instance* i = enter(c, "camera.execute_trigger");
     if (!i)
         return Device_Err;
+    if (i->real) {
+        ev(i, "trigger");
+        return i->real->execute_trigger(i->real);
+    }
     lock_acquire(&i->lock);
     i->triggers++;
     lock_release(&i->lock);
@@ -223,6 +267,27 @@ cam_get_frame(Camera* c, void* im, size_t* nbytes, ImageInfo* info)
     if (sc.fail_at >= 0 && (uint64_t)sc.fail_at == call) {
         ev(i, "get_frame -> Err (scripted fault)");
         return Device_Err;
+    }
+    if (i->real) {
+        size_t offered = *nbytes;
+        DeviceStatusCode r = i->real->get_frame(i->real, im, nbytes, info);
+        if (r != Device_Ok) {
+            ev(i, "get_frame -> Err (simulated camera)");
+            return r;
+        }
+        i = enter(c, "camera.get_frame (returning)");
+        if (!i)
+            return Device_Err;
+        if (*nbytes == 0)
+            return Device_Ok; // no frame (stopped while waiting)
+        if (*nbytes > offered)
+            lc_fail(i, "frame-larger-than-buffer", "the camera reports more image bytes than the buffer it was given");
+        info->hardware_timestamp = stamp(i->idx, i->run, i->k); // frames identify themselves (as with the mock cameras)
+        Delivered d{ i->run, i->k, info->hardware_frame_id, info->shape, vsim::now_ns(), {} };
+        d.pixels.assign((const uint8_t*)im, (const uint8_t*)im + *nbytes);
+        i->delivered.push_back(std::move(d));
+        i->k++;
+        return Device_Ok;
     }
     if (i->props.input_triggers.frame_start.enable) {
         lock_acquire(&i->lock);
@@ -378,23 +443,23 @@ st_reserve(Storage* s, const ImageShape*)
 static uint32_t
 d_count(Driver*)
 {
-    return 4;
+    return 6;
 }
 static DeviceStatusCode
 d_describe(const Driver*, DeviceIdentifier* id, uint64_t i)
 {
-    if (i >= 4)
+    if (i >= 6)
         return Device_Err;
     memset(id, 0, sizeof *id);
     id->device_id = (uint8_t)i;
-    id->kind = i < 2 ? DeviceKind_Camera : DeviceKind_Storage;
-    snprintf(id->name, sizeof id->name, "%s%d", i < 2 ? "vcam" : "vstore", (int)(i % 2));
+    id->kind = (i < 2 || i >= 4) ? DeviceKind_Camera : DeviceKind_Storage;
+    snprintf(id->name, sizeof id->name, "%s%d", i < 2 ? "vcam" : i < 4 ? "vstore" : "vreal", (int)(i % 2));
     return Device_Ok;
 }
 static DeviceStatusCode
 d_open(Driver*, uint64_t id, Device** out)
 {
-    if (id >= 4)
+    if (id >= 6)
         return Device_Err;
     if (hub.refuse_open[id]) { // scripted: the device cannot be opened right now (busy, unplugged)
         hub.refuse_open[id] = false;
@@ -403,8 +468,16 @@ d_open(Driver*, uint64_t id, Device** out)
     }
     Instance* i = new Instance();
     memset(&i->u, 0, sizeof i->u);
-    i->is_cam = id < 2;
-    i->idx = (int)(id % 2);
+    i->is_cam = id < 2 || id >= 4;
+    i->idx = id >= 4 ? (int)(id - 2) : (int)(id % 2);
+    if (id >= 4) {
+        // vreal0: "simulated: uniform random", vreal1: "simulated: radial sin" (BasicDeviceKind 0 and 1)
+        i->real = simcam_make_camera((int)(id - 4));
+        if (!i->real) {
+            delete i;
+            return Device_Err;
+        }
+    }
     i->serial = (int)hub.instances.size();
     memset(&i->props, 0, sizeof i->props);
     memset(&i->shape, 0, sizeof i->shape);
@@ -458,6 +531,10 @@ d_close(Driver*, Device* in)
         lc_fail(i, "close-without-stop", "device closed while started: its start was never followed by a stop");
     i->closed = true;
     ev(i, "close");
+    if (i->real) {
+        simcam_close_camera(i->real);
+        i->real = nullptr;
+    }
     i->snapshot.assign((uint8_t*)&i->u, (uint8_t*)&i->u + sizeof i->u);
     return Device_Ok;
 }
@@ -541,6 +618,27 @@ Instance*
 last_storage(int idx)
 {
     return find(false, idx, false);
+}
+
+uint8_t
+Expected::at(size_t j) const
+{
+    if (rec)
+        return j < rec->size() ? (*rec)[j] : 0;
+    return prf(hub.salt, cam, run, k, j);
+}
+
+Expected
+expected_pixels(int cam, int run, uint64_t k)
+{
+    Expected e{ cam, run, k, nullptr };
+    if (cam >= 2)
+        for (Instance* i : hub.instances)
+            if (i->is_cam && i->idx == cam)
+                for (auto& d : i->delivered)
+                    if (d.run == run && d.k == k)
+                        e.rec = &d.pixels;
+    return e;
 }
 
 } // namespace vmock
